@@ -142,7 +142,7 @@ pub trait Prop {
         if tier == Tier::Quick {
             300
         } else {
-            3000
+            1500
         }
     }
 }
